@@ -86,20 +86,11 @@ struct Array {
 
     Array &operator=(const Array &src) {
         if (this != &src) {
-            Type_T     *storage = Storage();
-            const SizeT size    = Size();
+            // 'src' can be an array held by one of these items, or hold this array inside one of its own
+            // items: finish the copy before this array changes, then release the old items last.
+            Array copy{src};
 
-            clearStorage();
-            setSize(src.Size());
-            setCapacity(src.Size());
-
-            if (IsNotEmpty()) {
-                copyArray(src);
-            }
-
-            // Just in case the copied array is not a child array.
-            Memory::Dispose(storage, (storage + size));
-            Memory::Deallocate(storage);
+            *this = Memory::Move(copy);
         }
 
         return *this;
